@@ -13,29 +13,31 @@
 (*   Materialise(ms)   the tree extraction builds from a member list       *)
 (*   Expected(T, d)    the source tree, links replaced when dereferencing  *)
 (***************************************************************************)
-EXTENDS Naturals, Sequences, FiniteSets, TLC
+EXTENDS Naturals, Integers, Sequences, FiniteSets, TLC
 
 Children(T, i) == { j \in 1..Len(T) : T[j].p = i }
 RECURSIVE IsAncestor(_, _, _)
 IsAncestor(T, a, i) == i # 0 /\ (T[i].p = a \/ IsAncestor(T, a, T[i].p))
 
 (* where a link finally leads: links may point at links (chains); 0 when the chain does not end within Len(T) hops (a cycle) *)
+(* A link's target is a node, or 0: the root directory itself (upward-but-inside).  -1: no target yet / the chain never ends.      *)
 RECURSIVE ResolveF(_, _, _)
-ResolveF(T, i, fuel) == IF T[i].k # "link" THEN i
-                        ELSE IF fuel = 0 \/ T[i].t = 0 THEN 0
+ResolveF(T, i, fuel) == IF i = 0 THEN 0
+                        ELSE IF T[i].k # "link" THEN i
+                        ELSE IF fuel = 0 \/ T[i].t = -1 THEN -1
                         ELSE ResolveF(T, T[i].t, fuel - 1)
 Resolve(T, i) == ResolveF(T, i, Len(T))
 
 WellFormed(T) ==
   /\ \A i \in 1..Len(T) : /\ T[i].p < i /\ (T[i].p # 0 => T[T[i].p].k = "dir")
-                          /\ (T[i].k = "link" => /\ T[i].t \in 1..Len(T) /\ T[i].t # i
-                                                 /\ Resolve(T, i) # 0                     \* chains end somewhere
-                                                 /\ ~IsAncestor(T, Resolve(T, i), i))     \* not upward to an ancestor (infinite when dereferenced)
+                          /\ (T[i].k = "link" => /\ T[i].t \in 0..Len(T) /\ T[i].t # i
+                                                 /\ Resolve(T, i) # -1)                   \* chains end somewhere (ancestors and the root are allowed:
+                                                                                          \*  stored as links they are harmless, followed they loop - see Acyclic)
                           /\ (T[i].k # "link" => T[i].t = 0)
 
 (* Dereferencing is only meaningful when following links never comes back: the graph "directory -> child, link -> target" is acyclic. *)
 (* (Two directories linking to each other sideways are a legal tree, stored link by link; followed, they unfold without end.)        *)
-Edge(T, i, j) == T[j].p = i \/ (T[i].k = "link" /\ T[i].t = j)
+Edge(T, i, j) == T[j].p = i \/ (T[i].k = "link" /\ T[i].t = j) \/ (T[i].k = "link" /\ T[i].t = 0 /\ T[j].p = 0)   \* a link to the root reaches every top-level node
 RECURSIVE ReachFrom(_, _, _)
 ReachFrom(T, S, n) == IF n = 0 THEN S ELSE ReachFrom(T, S \cup { j \in 1..Len(T) : \E i \in S : Edge(T, i, j) }, n - 1)
 Acyclic(T) == \A i \in 1..Len(T) : i \notin ReachFrom(T, { j \in 1..Len(T) : Edge(T, i, j) }, Len(T))
